@@ -113,6 +113,12 @@ def gen(rng, tier):
             # ANY answers from one big wildcard that are TRUNCATED over UDP: one stream whatever the QNAME (slip 0: see impl_c27)
             k1, k2 = "b" + rng.choice(["q", "zz", "Q"]), rng.choice(["b", "b", "b", "n"]) + rng.choice(["q", "other", "zz"])
             slip = 0
+        elif r_extra < 0.12:
+            # error responses reached THROUGH a wildcard (CNAME to a missing name: NXDOMAIN; looping CNAME: SERVFAIL) belong
+            # to the per-prefix NXDOMAIN / error stream like any other: never keyed by the wildcard
+            k1, k2 = rng.choice([("g" + rng.choice(["q", "zz"]), "x" + rng.choice(["q", "a"])), ("x" + rng.choice(["q", "a"]), "g" + rng.choice(["q", "zz"])),
+                                 ("h" + rng.choice(["q", "zz"]), "r" + rng.choice(["q", "a"])), ("r" + rng.choice(["q", "a"]), "h" + rng.choice(["q", "zz"])),
+                                 ("g" + "q", "g" + "zz"), ("h" + "q", "f"), ("g" + "q", "wq"), ("h" + "q", "cq")])
         tr = lambda: "udp" if rng.random() < 0.9 else "tcp"
         e1 = 0 if k1[0] == "b" else rng.choice([0, 1])
         e2 = 0 if k2[0] == "b" else rng.choice([0, 1])
